@@ -459,6 +459,8 @@ pub fn c04(ctx: &mut Ctx) {
 // ------------------------------------------------------------------------------------------ C11
 
 const CGR_SIZES: [usize; 7] = [1, 2, 3, 7, 16, 1000, 1 << 20];
+/// further sizes around powers of two, used on the shorter strings
+const CGR_SIZES_EXTRA: [usize; 8] = [5, 255, 256, 1023, 1024, 65_535, 65_536, (1 << 20) - 1];
 
 fn c11_one(ctx: &mut Ctx, comp: &CgrComputer, s_size: usize, family: &str, seq: &[u8]) {
     ctx.journal
@@ -654,6 +656,20 @@ pub fn c11(ctx: &mut Ctx) {
         }
     }
     ctx.rep.count("cases.clean_strings", n);
+    // every size 1..=64 and the sizes around powers of two, on the strings up to length 6
+    {
+        let mut extra: Vec<(usize, CgrComputer)> = (1..=64usize).chain(CGR_SIZES_EXTRA.iter().cloned()).map(|s| (s, CgrComputer::new("-".into(), "-".into(), s))).collect();
+        extra.dedup_by_key(|e| e.0);
+        let mut m = 0u64;
+        for s in todo.iter().filter(|s| s.len() <= 6) {
+            for (sz, c) in &extra {
+                c11_one(ctx, c, *sz, "clean-all-sizes", s);
+                m += 1;
+                ctx.rep.nontrivial += 1;
+            }
+        }
+        ctx.rep.count("cases.clean_strings_all_sizes", m);
+    }
     drop(todo);
     // both cases and U
     let mut sh = ctx.shard;
@@ -955,7 +971,7 @@ pub fn cgr_reuse(ctx: &mut Ctx, kmer_mode: bool) {
 
 pub fn c12(ctx: &mut Ctx) {
     cgr_reuse(ctx, true);
-    let sizes = [1usize, 4, 16, 49, 1 << 20];
+    let sizes = [1usize, 3, 4, 16, 49, 1000, 65_536, (1 << 20) - 1, 1 << 20];
     let small: Vec<Vec<u8>> = strings(S5, 0, ctx.pick(6, 8));
     let ps = strings(S5, 0, 2);
     let units = strings(S4, 1, 2);
